@@ -38,7 +38,7 @@ class Rule:
     def from_spec(cls, spec):
         path = DataPath.from_part_specs(*spec["path"])
         cond = ConditionLike.from_spec(spec["condition"])
-        doc = spec.get("doc")
+        doc = copy.deepcopy(spec.get("doc"))  # normalised below; not the caller's
 
         if doc:
             if not isinstance(doc, dict):
@@ -64,6 +64,8 @@ class Rule:
                 doc["examples"][idx] = ex_i.strip()
 
         cast = spec.get("cast")
+        if cast:
+            cast = dict(cast)  # rewritten below; not the caller's
         for cast_from in list((cast or {}).keys()):
             cast_to = cast.pop(cast_from)
             try:
